@@ -209,7 +209,12 @@ def _c26_check(exp, o, n_runs, execs=None, strict_only=False):
         elif any(c.startswith("?") or n.startswith("?") for c, n in gs):
             out.append("case-names-changed")
         elif gs < ws:
-            out.append("cases-lost")
+            lost = ws - gs
+            if all(c == "c0" and any(n2 == n and c2 != "c0" for c2, n2 in gs) for c, n in lost):
+                # a case without classname vanished while a class-qualified case of the same name stayed
+                out.append("cases-lost unqualified-case-merged-into-qualified-namesake")
+            else:
+                out.append("cases-lost")
         elif ws < gs or len(got_ids) > len(want_ids):
             out.append("cases-duplicated-or-added")
         else:
